@@ -367,3 +367,136 @@ Theorem C06_preorder_is_the_machines_rows : forall f o,
   map GluePreTraverseSearch.row_node (SurgeryFacts.rows o f) = map GluePreTraverseSearch.node_pair (pre_f f).
 Proof. exact GluePreTraverseSearch.rows_nodes. Qed.
 Print Assumptions C06_preorder_is_the_machines_rows.
+
+(* ====================================================================================== *)
+(* Tree.visit (audit 2.1).  [tree_visit] is what run06 executes for Tree.visit; the statements below say for it
+   what sections 3, 4, 4b say for Node.visit.  The wrapper passes the system root and add_self = False: the
+   callback never sees the root, so only the identities of the forest matter (NoDup (ids f); nothing is asked of the
+   root's own identity), and "the iterator" is Tree.iterator of the same method. *)
+From NT Require Import TraverseTree.
+
+Theorem C06_tree_visit_is_visit_of_the_root_without_self : forall (cb : cbT) (f : forest) (m : meth),
+  tree_visit cb f m = visit cb (sysroot f) m false.
+Proof. exact tree_visit_unfold. Qed.
+Print Assumptions C06_tree_visit_is_visit_of_the_root_without_self.
+
+Theorem C06_tree_visit_methods : forall (cb : cbT) (f : forest) (m : meth),
+  visit_supported m = false -> tree_visit cb f m = ([], VRaise E_NOTIMPL).
+Proof. exact tree_visit_unsupported. Qed.
+Print Assumptions C06_tree_visit_methods.
+
+(* order and return value without signals: exactly Tree.iterator's sequence *)
+Theorem C06_tree_visit_follows_tree_iterator : forall (cb : cbT) (f : forest) (reg : list rt) (rnd : list nat) (m : meth),
+  all_continue cb -> visit_supported m = true ->
+  exists l, tree_iterator f reg rnd m = Some l /\ tree_visit cb f m = (map rid l, VReturn None).
+Proof. exact tree_visit_all_continue. Qed.
+Print Assumptions C06_tree_visit_follows_tree_iterator.
+
+(* the system root is never handed to the callback (excludes a wrapper passing add_self = True) *)
+Theorem C06_tree_visit_calls_only_forest_nodes : forall (cb : cbT) (f : forest) (m : meth) (x : nat),
+  In x (fst (tree_visit cb f m)) -> In x (ids f).
+Proof. exact tree_visit_calls_in_forest. Qed.
+Print Assumptions C06_tree_visit_calls_only_forest_nodes.
+
+Theorem C06_tree_visit_no_repetition : forall (cb : cbT) (f : forest) (m : meth),
+  NoDup (ids f) -> NoDup (fst (tree_visit cb f m)).
+Proof. exact tree_visit_nodup. Qed.
+Print Assumptions C06_tree_visit_no_repetition.
+
+(* skip: exactly the nodes below a skipping node are suppressed *)
+Theorem C06_tree_visit_skip_suppresses_exactly_descendants :
+  forall (cb : cbT) (sk : nat -> bool) (f : forest) (reg : list rt) (rnd : list nat) (m : meth) (l : list rt),
+  skip_only cb sk -> m = PRE \/ m = LEVEL -> NoDup (ids f) -> tree_iterator f reg rnd m = Some l ->
+  exists tr, tree_visit cb f m = (tr, VReturn None) /\ subseq tr (map rid l) /\
+    forall y, In y tr <-> (In y (map rid l) /\ ~ exists x, sk x = true /\ anc_f f x y).
+Proof. exact tree_visit_skip. Qed.
+Print Assumptions C06_tree_visit_skip_suppresses_exactly_descendants.
+
+Theorem C06_tree_visit_skip_any_callback :
+  forall (cb : cbT) (f : forest) (reg : list rt) (rnd : list nat) (m : meth) (l : list rt),
+  never_halts cb -> m = PRE \/ m = LEVEL -> NoDup (ids f) -> tree_iterator f reg rnd m = Some l ->
+  exists tr, tree_visit cb f m = (tr, VReturn None) /\ subseq tr (map rid l) /\
+    forall y, In y tr <-> (In y (map rid l) /\ ~ skipped_dyn_f cb f tr y).
+Proof. exact tree_visit_skip_any_callback. Qed.
+Print Assumptions C06_tree_visit_skip_any_callback.
+
+Theorem C06_tree_visit_post_order_ignores_skip : forall (cb : cbT) (f : forest) (reg : list rt) (rnd : list nat),
+  never_halts cb ->
+  exists l, tree_iterator f reg rnd POST = Some l /\ tree_visit cb f POST = (map rid l, VReturn None).
+Proof. exact tree_visit_post_ignores_skip. Qed.
+Print Assumptions C06_tree_visit_post_order_ignores_skip.
+
+(* stop: ends at once, carried value returned, every stop shape / any halting answer / at a node *)
+Theorem C06_tree_visit_stop_at_kth_call_every_shape :
+  forall (r : raw) (v : option Z) (f : forest) (reg : list rt) (rnd : list nat) (m : meth) (k : nat) (l : list rt),
+  stop_shape r v -> visit_supported m = true -> tree_iterator f reg rnd m = Some l -> k < length l ->
+  tree_visit (fun calls _ => if Nat.eqb (length calls) k then r else RetNone) f m
+  = (firstn (S k) (map rid l), VReturn v).
+Proof. exact tree_visit_stop_every_shape. Qed.
+Print Assumptions C06_tree_visit_stop_at_kth_call_every_shape.
+
+Theorem C06_tree_visit_halt_at_kth_call :
+  forall (cb : cbT) (f : forest) (reg : list rt) (rnd : list nat) (m : meth) (k : nat) (h : halt) (l : list rt),
+  at_call cb k (halt_out h) -> visit_supported m = true -> tree_iterator f reg rnd m = Some l ->
+  tree_visit cb f m = if k <? length l then (firstn (S k) (map rid l), vres_of h) else (map rid l, VReturn None).
+Proof. exact tree_visit_stop_at_call. Qed.
+Print Assumptions C06_tree_visit_halt_at_kth_call.
+
+Theorem C06_tree_visit_halt_at_node :
+  forall (cb : cbT) (f : forest) (reg : list rt) (rnd : list nat) (m : meth) (n : nat) (h : halt) (l : list rt),
+  at_node cb n (halt_out h) -> visit_supported m = true -> tree_iterator f reg rnd m = Some l ->
+  (~ In n (map rid l) /\ tree_visit cb f m = (map rid l, VReturn None)) \/
+  (exists l1 l2, map rid l = l1 ++ n :: l2 /\ ~ In n l1 /\ tree_visit cb f m = (l1 ++ [n], vres_of h)).
+Proof. exact tree_visit_stop_at_node. Qed.
+Print Assumptions C06_tree_visit_halt_at_node.
+
+(* any stateful callback *)
+Theorem C06_tree_visit_any_callback :
+  forall (cb : cbT) (f : forest) (reg : list rt) (rnd : list nat) (m : meth) (l : list rt),
+  visit_supported m = true -> tree_iterator f reg rnd m = Some l ->
+  subseq (fst (tree_visit cb f m)) (map rid l) /\
+  exists tr tr' r, tree_visit cb f m = (tr, r) /\ tree_visit (mute cb) f m = (tr', VReturn None) /\
+    ((quiet cb [] tr /\ tr = tr' /\ r = VReturn None) \/
+     (exists h, halted cb [] tr h /\ (exists rest, tr' = tr ++ rest) /\ r = vres_of h)).
+Proof. exact tree_visit_any_callback. Qed.
+Print Assumptions C06_tree_visit_any_callback.
+
+(* Node level, add_self = False: uniqueness is needed only BELOW the start node (audit 2.3) *)
+Theorem C06_iterator_no_repetition_without_self : forall (t : rt) (m : meth) (l : list rt),
+  NoDup (ids (rch t)) -> iterator t m false = Some l -> NoDup (map rid l).
+Proof. exact iterator_nodup_noself. Qed.
+Print Assumptions C06_iterator_no_repetition_without_self.
+
+Theorem C06_skip_without_self :
+  forall (cb : cbT) (sk : nat -> bool) (s : rt) (m : meth) (l : list rt),
+  skip_only cb sk -> m = PRE \/ m = LEVEL -> NoDup (ids (rch s)) -> iterator s m false = Some l ->
+  exists tr, visit cb s m false = (tr, VReturn None) /\ subseq tr (map rid l) /\
+    forall y, In y tr <-> (In y (map rid l) /\ ~ exists x, sk x = true /\ anc_f (rch s) x y).
+Proof. exact visit_skip_char_noself. Qed.
+Print Assumptions C06_skip_without_self.
+
+(* the registry as run06 receives it, a list of identities (audit 2.2): if they are a permutation of the forest's
+   identities (the flag run06 compares, and the oracle's `reg_ok`), the hypothesis of C06_tree_iterator_permutation
+   holds for the node list [reg_nodes f reg] that run06 builds from them *)
+Theorem C06_registry_ids_suffice : forall (f : forest) (reg : list nat) (rnd : list nat) (m : meth),
+  NoDup (ids f) -> Permutation reg (ids f) ->
+  Permutation (reg_nodes f reg) (pre_f f) /\
+  exists l, tree_iterator f (reg_nodes f reg) rnd m = Some l /\ Permutation l (pre_f f).
+Proof. intros f reg rnd m ND P. split; [exact (reg_bridge f reg ND P)|exact (tree_iterator_perm_ids f reg rnd m ND P)]. Qed.
+Print Assumptions C06_registry_ids_suffice.
+
+Example C06_tree_visit_nonvacuous :
+  let i := I 0 0 0 true [] (DInt 0) None [] in
+  let f := [T 2 i [T 4 i []; T 5 i []]; T 3 i [T 6 i [T 7 i []]]] in
+  let skip2 : cbT := fun _ x => if Nat.eqb x 2 then RetSkipCls else RetNone in
+  let stop3 : cbT := fun calls _ => if Nat.eqb (length calls) 3 then RetFalse else RetNone in
+  NoDup (ids f) /\
+  option_map (map rid) (tree_iterator f [] [] LEVEL) = Some [2; 3; 4; 5; 6; 7] /\
+  tree_visit cb_continue f LEVEL = ([2; 3; 4; 5; 6; 7], VReturn None) /\
+  tree_visit cb_continue f LEVEL <> visit cb_continue (sysroot f) LEVEL true /\
+  tree_visit skip2 f PRE = ([2; 3; 6; 7], VReturn None) /\
+  tree_visit stop3 f POST = ([4; 5; 2; 7], VReturn None) /\
+  tree_visit (fun calls _ => if Nat.eqb (length calls) 1 then RaiseStopInst (Some 8%Z) else RetNone) f PRE
+    = ([2; 4], VReturn (Some 8%Z)) /\
+  tree_visit cb_continue f ZIGZAG = ([], VRaise E_NOTIMPL).
+Proof. exact tree_visit_example. Qed.
